@@ -26,14 +26,29 @@ VARLIB_BUILDS = [
 KINDS = ["recompile", "ttx", "ttx", "fea", "fea", "subset", "subset", "instance", "instance", "build", "merge", "scale", "reorder"]
 
 
-def generate(ctx, r, idx):
-    kind = r.choice(KINDS)
+BUILD_KINDS = ["fea", "fea", "fea", "fea", "subset", "subset", "build", "merge", "instance", "instance"]
+
+
+def generate(ctx, r, idx, build_only=False):
+    kind = r.choice(BUILD_KINDS if build_only else KINDS)
     h = {"kind": "pipe", "pipe": kind, "seed": r.randrange(1 << 30), "ops": []}
     bins = corpus.binaries()
     if kind in ("recompile", "ttx", "subset", "scale", "reorder"):
-        h["input"] = r.choice(bins)
+        # binaries as they are, and fonts compiled from the corpus TTX files (they add table kinds and
+        # CFF fonts without explicit FontMatrix etc. that the binaries lack)
+        if r.random() < 0.5:
+            h["input"] = r.choice(bins)
+        else:
+            for _ in range(40):
+                k = r.choice(corpus.ttx_files())
+                if corpus.gen2("ttx:" + k) is not None:
+                    h["input"] = "ttx:" + k
+                    break
+            else:
+                h["input"] = r.choice(bins)
     elif kind == "fea":
-        h["input"] = r.choice(corpus.fea_files())
+        feas = corpus.fea_files()
+        h["input"] = feas[idx % len(feas)] if build_only else r.choice(feas)
         h["level"] = r.choice([0, 0, 5, 9])
     elif kind == "instance":
         h["input"] = r.choice(_variable_fonts())
@@ -139,6 +154,16 @@ def masters(prefix):
     return _MASTERS[prefix]
 
 
+def _raw(inp):
+    if inp.startswith("ttx:"):
+        return corpus.gen2(inp)
+    return corpus.raw(inp)
+
+
+def _ext(inp):
+    return ".otf" if _raw(inp)[:4] == b"OTTO" else ".ttf"
+
+
 def _save(font):
     font.recalcTimestamp = False
     b = io.BytesIO()
@@ -170,15 +195,15 @@ def run_pipe(h, scratch):
     kind = h["pipe"]
     r = prng.sub("pipe", h["seed"])
     if kind == "recompile":
-        f = TTFont(io.BytesIO(corpus.raw(h["input"])), recalcTimestamp=False)
+        f = TTFont(io.BytesIO(_raw(h["input"])), recalcTimestamp=False)
         f.ensureDecompiled()
         return _save(f)
     if kind == "ttx":
         from fontTools import ttx
 
-        src = os.path.join(scratch, "in" + os.path.splitext(h["input"])[1])
+        src = os.path.join(scratch, "in" + _ext(h["input"]))
         with open(src, "wb") as f:
-            f.write(corpus.raw(h["input"]))
+            f.write(_raw(h["input"]))
         x = os.path.join(scratch, "d.ttx")
         ttx.main(["-q", "-o", x, src])
         o = os.path.join(scratch, "o.bin")
@@ -197,9 +222,9 @@ def run_pipe(h, scratch):
     if kind == "subset":
         from fontTools import subset
 
-        src = os.path.join(scratch, "in" + os.path.splitext(h["input"])[1])
+        src = os.path.join(scratch, "in" + _ext(h["input"]))
         with open(src, "wb") as f:
-            f.write(corpus.raw(h["input"]))
+            f.write(_raw(h["input"]))
         o = os.path.join(scratch, "o.bin")
         probe = TTFont(src, lazy=True)
         go = probe.getGlyphOrder()
@@ -255,13 +280,13 @@ def run_pipe(h, scratch):
     if kind == "scale":
         from fontTools.ttLib.scaleUpem import scale_upem
 
-        f = TTFont(io.BytesIO(corpus.raw(h["input"])), recalcTimestamp=False)
+        f = TTFont(io.BytesIO(_raw(h["input"])), recalcTimestamp=False)
         scale_upem(f, r.choice([500, 1000, 1024, 2048]))
         return _save(f)
     if kind == "reorder":
         from fontTools.ttLib.reorderGlyphs import reorderGlyphs
 
-        f = TTFont(io.BytesIO(corpus.raw(h["input"])), recalcTimestamp=False)
+        f = TTFont(io.BytesIO(_raw(h["input"])), recalcTimestamp=False)
         go = f.getGlyphOrder()
         rest = list(go[1:])
         r.shuffle(rest)
